@@ -138,3 +138,31 @@ Print Assumptions C01_semver_parse_eq.
 Theorem C01_to_pep440_dotted : ltac:(let t := type of to_pep440_dotted in exact t).
 Proof. exact to_pep440_dotted. Qed.
 Print Assumptions C01_to_pep440_dotted.
+
+(* ---- Proofs.CalverE2E ---- *)
+From Coq Require Import List Bool NArith ZArith Arith.
+From BV Require Import Lib.PyStr Lib.Decimal Lib.Calendar Model.V2 Model.Pep440 Model.Cli Model.Lexid Proofs.DottedFacts Proofs.CalverE2E.
+Import ListNotations.
+(* calver_test_cmd :
+   forall (today date : Z) (fl : flags) (y m : N) (bid b' : list N), (1000 <= y <= 9999)%N -> (1 <= m <= 12)%N -> all_digits bid = true -> bid <> [] -> (0 <= date <= MAX_ORD)%Z -> no_flags fl -> bump_bid bid = Some b' -> test_cmd_v2 today (cv y m bid) P fl (Some (Some date)) None = Exit0 (calver_next y m b' date) (to_pep440 (calver_next y m b' date)) *)
+Theorem C01_calver_test_cmd : ltac:(let t := type of calver_test_cmd in exact t).
+Proof. exact calver_test_cmd. Qed.
+Print Assumptions C01_calver_test_cmd.
+
+(* calver_test_cmd_today :
+   forall (today : Z) (fl : flags) (y m : N) (bid b' : list N), (1000 <= y <= 9999)%N -> (1 <= m <= 12)%N -> all_digits bid = true -> bid <> [] -> (0 <= today <= MAX_ORD)%Z -> no_flags fl -> bump_bid bid = Some b' -> test_cmd_v2 today (cv y m bid) P fl None None = Exit0 (calver_next y m b' today) (to_pep440 (calver_next y m b' today)) *)
+Theorem C01_calver_test_cmd_today : ltac:(let t := type of calver_test_cmd_today in exact t).
+Proof. exact calver_test_cmd_today. Qed.
+Print Assumptions C01_calver_test_cmd_today.
+
+(* calver_e2e :
+   forall (today date : Z) (fl : flags) (y m : N) (bid b' : list N), (1000 <= y <= 9999)%N -> (1 <= m <= 12)%N -> all_digits bid = true -> bid <> [] -> (0 <= date <= MAX_ORD)%Z -> no_flags fl -> bump_bid bid = Some b' -> let new := calver_next y m b' date in test_cmd_v2 today (cv y m bid) P fl (Some (Some date)) None = Exit0 new (to_pep440 new) /\ ver_lt (cv y m bid) new = true /\ (undec bid < undec b')%N /\ all_digits b' = true /\ (exists y' m' : N, new = cv y' m' b' /\ (1000 <= y' <= 9999)%N /\ (1 <= m' <= 12)%N /\ (y * 100 + m <= y' * 100 + m')%N /\ to_pep440 new = dotted [(y' * 100 + m')%N; undec b']) *)
+Theorem C01_calver_e2e : ltac:(let t := type of calver_e2e in exact t).
+Proof. exact calver_e2e. Qed.
+Print Assumptions C01_calver_e2e.
+
+(* parse_vdj :
+   forall ds : list (list N), Forall dstr ds -> ds <> [] -> parse_pep440 (118%N :: dj ds) = Some {| pv_epoch := 0; pv_release := map undec ds; pv_pre := None; pv_post := None; pv_dev := None; pv_local := None |} *)
+Theorem C01_parse_vdj : ltac:(let t := type of parse_vdj in exact t).
+Proof. exact parse_vdj. Qed.
+Print Assumptions C01_parse_vdj.
